@@ -46,6 +46,18 @@ Theorem C08_element_length : forall e rest,
   message_length (elem_bytes e ++ z4 ++ rest) SIZE_MAX = Ok (zlen (elem_bytes e)).
 Proof. exact message_length_elem. Qed.
 
+(* subtree_serialize (src/cpp/subtree-serialize.cpp) builds the bundle of the
+   captured replies by appending: for every capacity either the whole bundle
+   (time tag 0xdeadbeef0a0b0c0d) followed by zeros, or 0; the destination
+   never changes its length (no write outside it) *)
+Theorem C08_subtree_serialize : forall buf msgs,
+  Forall (fun m => 0 < zlen m < 4294967296) msgs ->
+  let B := bundle_magic ++ be64 SUBTREE_TT ++ body msgs in
+  exists b', subtree_serialize buf msgs = Ok ((if zlen buf <? zlen B then 0 else zlen B), b') /\
+             zlen b' = zlen buf /\
+             (zlen B <= zlen buf -> b' = B ++ zeros (zlen buf - zlen B)).
+Proof. exact subtree_serialize_spec. Qed.
+
 (* a plain message is never mistaken for a bundle *)
 Theorem C08_msg_not_bundle : forall a tags args rest,
   msg_wf a tags args -> not_bundle_addr a ->
